@@ -43,10 +43,12 @@ VARIABLES role, sock, lite,   \* configuration (never changes)
           nrounds,            \* check rounds started so far
           phost,              \* P's (first) entry in the candidate list is the signalled host candidate
                               \* (FALSE: P was first learnt as a peer-reflexive candidate from a request)
+          routes,             \* shared-UDP demux (shared_udp.rs): which session a source address is routed to:
+                              \* "us" | "other" | "none"; constantly "us" for a socket of our own
           hist, last
 
-vars == <<role, sock, lite, started, state, rc, sel, nom, pend, nrounds, phost, hist, last>>
-view == <<role, sock, lite, started, state, rc, sel, nom, pend, nrounds, phost>>
+vars == <<role, sock, lite, started, state, rc, sel, nom, pend, nrounds, phost, routes, hist, last>>
+view == <<role, sock, lite, started, state, rc, sel, nom, pend, nrounds, phost, routes>>
 cfgv == <<role, sock, lite>>
 
 Txn == [dst : Addr, rnd : 1..3, uc : BOOLEAN]
@@ -61,6 +63,7 @@ TypeOK ==
   /\ pend \subseteq Txn
   /\ nrounds \in 0..3
   /\ phost \in BOOLEAN
+  /\ routes \in [Addr -> {"us", "other", "none"}]
 
 Init ==
   /\ role \in Roles /\ sock \in Socks /\ lite \in Lites
@@ -69,8 +72,9 @@ Init ==
   /\ rc = {} /\ sel = "none" /\ nom = "none"
   /\ pend = {} /\ nrounds = 0
   /\ phost = FALSE
+  /\ routes = [a \in Addr |-> IF sock = "mux" THEN "none" ELSE "us"]
   /\ hist = <<>>
-  /\ last = [kind |-> "init"]
+  /\ last = [kind |-> "init", delivered |-> TRUE]
 
 \* every history entry carries the state it leads to, so that a replay can wait for the
 \* (asynchronous) effects of one step before it applies the next
@@ -88,6 +92,9 @@ NewRound(ps, cands, n) ==
   IF ds = {} THEN [pend |-> ps, n |-> n]
   ELSE [pend |-> ps \cup {[dst |-> d, rnd |-> n + 1, uc |-> FALSE] : d \in ds}, n |-> n + 1]
 
+\* sending to an address through the shared socket routes that address back to this session
+Sent(rt, ds) == [a \in Addr |-> IF a \in ds THEN "us" ELSE rt[a]]
+
 ---------------------------------------------------------------------------
 (* start(): the peer's candidate P has been signalled, remote credentials  *)
 (* are set, state becomes Checking and a round of checks starts unless a    *)
@@ -99,8 +106,9 @@ Start ==
   /\ phost' = (IF "P" \in rc THEN phost ELSE TRUE)
   /\ state' = "Checking"
   /\ (LET r == IF sel = "none" THEN NewRound(pend, rc', nrounds) ELSE [pend |-> pend, n |-> nrounds]
-      IN pend' = r.pend /\ nrounds' = r.n)
-  /\ last' = [kind |-> "start"]
+      IN /\ pend' = r.pend /\ nrounds' = r.n
+         /\ routes' = Sent(routes, PendDsts(r.pend) \ PendDsts(pend)))
+  /\ last' = [kind |-> "start", delivered |-> TRUE]
   /\ UNCHANGED <<sel, nom, cfgv>>
   /\ Log([op |-> "start"])
 
@@ -114,7 +122,7 @@ Authentic(q) == q.user = "ok" /\ q.mi = "ok"
 Better(a, b) == a = "P" /\ b = "X" /\ phost
 
 \* What handle_stun_request does with a request it accepts.
-Accept(src, uc) ==
+Accept(src, uc, rt) ==
   LET isNew   == src \notin rc
       rc1     == rc \cup {src}
       useIt   == uc /\ role = "controlled"
@@ -127,13 +135,24 @@ Accept(src, uc) ==
                  THEN NewRound(pend, rc1, nrounds) ELSE [pend |-> pend, n |-> nrounds]
   IN /\ rc' = rc1 /\ sel' = sel1 /\ state' = state1 /\ nom' = nom1
      /\ pend' = r.pend /\ nrounds' = r.n
+     /\ routes' = Sent(rt, {src} \cup (PendDsts(r.pend) \ PendDsts(pend)))      \* the reply and the new checks
+
+\* whom the USERNAME of a request names (shared_tcp.rs: peer_ufrag_from_binding_request)
+UserLocal(u) == CASE u = "ok" -> "us"
+                  [] u \in {"wrong", "swapped", "prefix"} -> "other"
+                  [] OTHER -> "nouser"                       \* missing, or no colon in it
 
 Request(q) ==
   /\ state # "Failed"
-  /\ (IF Authentic(q) \/ "NoRequestAuth" \in Deviations
-      THEN Accept(q.src, q.uc)
-      ELSE UNCHANGED <<rc, sel, state, nom, pend, nrounds>>)
-  /\ last' = [kind |-> "request", auth |-> Authentic(q), known |-> (q.src \in rc)]
+  /\ LET ul == UserLocal(q.user)
+         \* the demux records the route a USERNAME names before anything is verified
+         rt1 == IF sock = "mux" /\ ul # "nouser" THEN [routes EXCEPT ![q.src] = ul] ELSE routes
+         delivered == sock # "mux" \/ ul = "us" \/ (ul = "nouser" /\ routes[q.src] = "us")
+     IN /\ (IF delivered /\ (Authentic(q) \/ "NoRequestAuth" \in Deviations)
+             THEN Accept(q.src, q.uc, rt1)
+             ELSE /\ UNCHANGED <<rc, sel, state, nom, pend, nrounds>>
+                  /\ routes' = rt1)
+        /\ last' = [kind |-> "request", auth |-> Authentic(q), known |-> (q.src \in rc), delivered |-> delivered]
   /\ UNCHANGED <<started, phost, cfgv>>
   /\ Log([op |-> "request", src |-> q.src, user |-> q.user, mi |-> q.mi, uc |-> q.uc, fp |-> q.fp])
 
@@ -174,13 +193,15 @@ Matched(p, class) ==
 
 Response(tx, class, src) ==
   /\ state # "Failed"
-  /\ (IF tx \in pend
+  /\ (IF routes[src] # "us"
+      THEN UNCHANGED <<sel, state, nom, pend>>                \* dropped by the demux
+      ELSE IF tx \in pend
       THEN Matched(tx, class)
       ELSE IF "AnyResponse" \in Deviations /\ pend # {}
            THEN \E p \in pend : Matched(p, class)          \* a response consumed although it matches nothing
            ELSE UNCHANGED <<sel, state, nom, pend>>)
-  /\ last' = [kind |-> "response", matched |-> (tx \in pend)]
-  /\ UNCHANGED <<rc, nrounds, started, phost, cfgv>>
+  /\ last' = [kind |-> "response", matched |-> (tx \in pend), delivered |-> (routes[src] = "us")]
+  /\ UNCHANGED <<rc, nrounds, started, phost, routes, cfgv>>
   /\ Log([op |-> "response",
           tx |-> IF tx \in pend THEN [dst |-> tx.dst, uc |-> tx.uc, known |-> TRUE]
                  ELSE [dst |-> "none", uc |-> FALSE, known |-> FALSE],
